@@ -71,9 +71,18 @@ def natDoc (n : Nat) : Doc := .atom (toString n)
 
 def intDoc (n : Int) : Doc := if n < 0 then .neg (natDoc n.natAbs) else natDoc n.natAbs
 
-def fltOK (text : String) (neg : Bool) : Bool := text.startsWith "-" == neg && text.length > (if neg then 1 else 0)
+/-- does the text start with `-` ? -/
+def headMinus (t : String) : Bool :=
+  match t.toList with
+  | '-' :: _ => true
+  | _ => false
 
-def fltDoc (text : String) (neg : Bool) : Doc := if neg then .neg (.atom (text.drop 1).toString) else .atom text
+/-- the text without its first character -/
+def tailStr (t : String) : String := String.ofList (t.toList.drop 1)
+
+def fltOK (text : String) (neg : Bool) : Bool := headMinus text == neg && text.length > (if neg then 1 else 0)
+
+def fltDoc (text : String) (neg : Bool) : Doc := if neg then .neg (.atom (tailStr text)) else .atom text
 
 def numDoc : E → Doc
   | .int n => intDoc n
@@ -85,7 +94,7 @@ def numDoc : E → Doc
 def negNum : E → E
   | .int n => .int (-n)
   | .rat p q => .rat (-p) q
-  | .flt t neg => .flt (if neg then (t.drop 1).toString else "-" ++ t) (!neg)
+  | .flt t neg => .flt (if neg then tailStr t else "-" ++ t) (!neg)
   | e => e
 
 /-! ## joining printed operands: what CPython's parser makes of `acc ⊕ d` when `d` is not bracketed -/
